@@ -79,15 +79,26 @@ class H(semh.Base):
         self.symvars = {}
         ws = words_of(text)
         base = self.analyse(ex, ws, None, None)
+
+        def variant(*args):
+            # the base program analyses normally: a panic on the variant is a difference between the two runs
+            try:
+                return self.analyse(ex, *args)
+            except Panic as e:
+                self.variant_panic = True
+                raise Panic(f"the base program is analysed normally, the {mode} variant panics: {str(e)[:120]}")
         if mode == "layout":
-            var = self.analyse(ex, ws, "layout", self.task[3])
+            var = variant(ws, "layout", self.task[3])
             self.same_result(ex, base, var, "the layout", rename=None)
         elif mode == "rename":
-            var = self.analyse(ex, ws, "rename", None)
+            var = variant(ws, "rename", None)
             self.same_result(ex, base, var, "the renaming", rename=self.rename)
         elif mode == "prefix":
             ext = words_of(text + " " + self.task[3])
-            var = self.analyse(ex, ext, "suffix-names", len(ws))
+            try:
+                var = self.analyse(ex, ext, "suffix-names", len(ws))
+            except Panic:
+                return "suffix-panics"        # an appended statement the analyser cannot handle (C03's subject); nothing to compare
             self.prefix_result(ex, base, var)
         ex.obligations += 1
         return mode
@@ -306,7 +317,7 @@ def run(ctx):
     st, errs = explore.explore_many(semh.famfactory(ctx.known, ctx.seed, H), tasks, workers=ctx.workers, max_paths=3000, on_result=on_result, log=ctx.log)
     res.merge_stats(st)
     ctx.log(f"{st.get('paths', 0)} paths: {dict(counts)} panic={st.get('panic', 0)} violation={st.get('violation', 0)} unsupported={st.get('unsupported', 0)} wall={st.get('wall', 0):.1f}s")
-    semh.triage(ctx, res, "C17", fails)
+    semh.triage(ctx, res, "C17", fails, panic_is="violation")      # base programs never panic: a panic is a variant-only panic, confirmed by the native run of the variant text
     # (d)
     from .sem_kit import SemKit
     kit = SemKit()
